@@ -512,6 +512,74 @@ def check_formulas(ctx, rep):
 
 
 
+def _data_keys_in(ctx, module, e, data):
+    keys = []
+    for x in ast.walk(e):
+        if isinstance(x, ast.Subscript) and isinstance(x.value, ast.Name) and x.value.id == data:
+            k = const_key(ctx, module, x.slice)
+            if k:
+                keys.append(k)
+        if isinstance(x, ast.Call) and isinstance(x.func, ast.Attribute) and x.func.attr == 'get' and isinstance(x.func.value, ast.Name) and x.func.value.id == data and x.args:
+            k = const_key(ctx, module, x.args[0])
+            if k:
+                keys.append(k)
+    return keys
+
+
+def check_positional_options(ctx, rep, rule='C09.O', only=None):
+    """a JSON option handed to the constructor *by position* (directly, or through a module-level helper that forwards `*options`) must land on the
+    constructor parameter of the same name"""
+    n = 0
+    for ci, fn in all_from_json(ctx):
+        if only is not None and not only(ci):
+            continue
+        params = [a.arg for a in fn.args.args]
+        if len(params) < 2:
+            continue
+        data = params[1]
+        init = ci.resolve('__init__')
+        if init is None:
+            continue
+        ctor = [a.arg for a in init[1].args.args][1:]
+        calls = []   # (call node, list of positional expressions in constructor order, module)
+        for c in ast.walk(fn):
+            if not isinstance(c, ast.Call):
+                continue
+            if isinstance(c.func, ast.Name) and c.func.id == 'cls' and not any(isinstance(a, ast.Starred) for a in c.args):
+                calls.append((c, list(c.args)))
+            elif isinstance(c.func, ast.Name) and c.func.id in ci.module.functions and c.args and isinstance(c.args[0], ast.Name) and c.args[0].id == 'cls':
+                h = ci.module.functions[c.func.id]
+                hp = [a.arg for a in h.args.args]
+                var = h.args.vararg.arg if h.args.vararg else None
+                extra = list(c.args[len(hp):]) if var else []
+                for hc in ast.walk(h):
+                    if isinstance(hc, ast.Call) and isinstance(hc.func, ast.Name) and hc.func.id == hp[0]:
+                        pos = []
+                        for a in hc.args:
+                            if isinstance(a, ast.Starred) and isinstance(a.value, ast.Name) and a.value.id == var:
+                                pos += extra
+                            else:
+                                pos.append(None)        # computed inside the helper: not an option forwarded by position from this from_json
+                        calls.append((c, pos))
+        for c, pos in calls:
+            for i, a in enumerate(pos):
+                if a is None or i >= len(ctor):
+                    continue
+                # only options with a literal default (`data.get('flag', False)`): for those the key is the option's documented name
+                if not (isinstance(a, ast.Call) and isinstance(a.func, ast.Attribute) and a.func.attr == 'get' and len(a.args) == 2 and isinstance(a.args[1], ast.Constant)):
+                    continue
+                keys = _data_keys_in(ctx, ci.module, a, data)
+                if len(keys) != 1:
+                    continue
+                n += 1
+                k, p_ = keys[0], ctor[i]
+                norm = lambda z: z.strip('_').lower()
+                ok = norm(k) == norm(p_) or norm(p_) in norm(k) or norm(k) in norm(p_)
+                rep.check(rule, f"{ci.qualname}::positional::{k}", ok, where(ci.module, c), {'json_key': k, 'constructor_parameter': p_, 'position': i},
+                          f"{ci.name}.from_json hands data['{k}'] to the constructor by position, where it lands on the parameter `{p_}`: the option '{k}' switches on `{p_}`")
+    return n
+
+
 BD_MODULES = ('torchtree.evolution.bdsk', 'torchtree.evolution.birth_death')
 
 
@@ -596,7 +664,7 @@ def run(ctx, rep):
     rep.rule('C09.P', "evaluation is pure: no in-place update of a name that may alias stored state or an argument; no constructor snapshot of a parameter value used at evaluation")
     rep.rule('C09.R', "rho padded to one entry per epoch keeps the sampling probability last (zeros first)")
     rep.not_decided += ["epoch-refinement invariance", "boundary coincidences", "agreement with the master equations numerically"]
-    for f, rule in ((check_options, 'C09.O'), (check_plumbing, 'C09.K'), (check_members, 'C09.U'), (check_formulas, 'C09.F'), (check_purity, 'C09.P'),
+    for f, rule in ((check_options, 'C09.O'), (check_positional_options, 'C09.O'), (check_plumbing, 'C09.K'), (check_members, 'C09.U'), (check_formulas, 'C09.F'), (check_purity, 'C09.P'),
                     (check_snapshots, 'C09.P'), (check_rho_alignment, 'C09.R')):
         try:
             f(ctx, rep)
